@@ -85,9 +85,11 @@ def family(quick=True):
     out = []
     for ctype in TYPES:
         for nm in (2, 3):
-            for no in ((2, 3) if quick else (2, 3, 4)):
+            for no in (2, 3, 4):
+                if quick and no == 4 and nm != 3:
+                    continue       # quick: four options only with three members (more options than members)
                 for pl in PLACEMENTS:
-                    if nm == 3 and no == 4:
+                    if nm == 3 and no == 4 and pl not in ('permanent', 'later_under_third'):
                         continue
                     # documented: permutations / non-replacing combinations need at least as many options as choices,
                     # otherwise the DSG is infeasible by definition (docs/theory.md) -- not part of the family
